@@ -68,6 +68,7 @@ type FuncContract struct {
 	Derived         []string
 	Approx          []string
 	LocModel        bool
+	ViewsUnchecked  bool // "views unchecked": Slice may describe a view that extends beyond its parent (Slice itself checks nothing)
 	Fresh           []string
 	UseLemmas       []string
 	DynTypes        map[string]string // result name -> concrete struct type name
@@ -373,6 +374,8 @@ func parseFuncDirective(fc *FuncContract, word, rest, file string, line int) {
 		default:
 			fatalf("%s:%d: unknown loop directive %q", file, line, f[1])
 		}
+	case "views":
+		fc.ViewsUnchecked = strings.TrimSpace(rest) == "unchecked"
 	case "panics":
 		fc.PanicsAllowed = strings.TrimSpace(rest) == "allowed"
 	case "noalias":
